@@ -24,6 +24,10 @@ import FFVerif.Model.SuperopKraus
 import FFVerif.Model.RemapDef
 import FFVerif.Model.Tile
 import FFVerif.Model.Shifts
+import FFVerif.Model.Integrand
+import FFVerif.Model.IntegrandShape
+import FFVerif.Model.GradientInfid
+import FFVerif.Model.ExtendAsm
 
 namespace FFVerif.Model
 open FFVerif FFVerif.Proto
@@ -75,7 +79,7 @@ def handleMore (toks : List String) : String :=
     "ok " ++ showFloats #[v]
   | toks =>
     -- components that live in their own model files
-    let handlers : List (List String → Option String) := [handleDiag, Tensor.handleTensor, handleSecondOrder, handleGradient, handleGradientAsm, Pulse.handlePulse, handleBasis, handleCumulant, Cache.handleCacheTrace, Effects.handleEffects, Validate.handleValidate, ConcatLogic.handleConcatLogic, ExtendLogic.handleExtendLogic, Registers.handleRegisters, handleSuperopKraus, RemapDef.handleRemapDef, handleSuperop, handleTile, handleShifts]
+    let handlers : List (List String → Option String) := [handleDiag, Tensor.handleTensor, handleSecondOrder, handleGradient, handleGradientAsm, Pulse.handlePulse, handleBasis, handleCumulant, Cache.handleCacheTrace, Effects.handleEffects, Validate.handleValidate, ConcatLogic.handleConcatLogic, ExtendLogic.handleExtendLogic, Registers.handleRegisters, handleSuperopKraus, RemapDef.handleRemapDef, handleSuperop, handleTile, handleShifts, handleIntegrand, IntegrandShape.handleIntegrandShape, handleGradientInfid, ExtendAsm.handleExtendAsm]
     match handlers.findSome? (fun h => h toks) with
     | some r => r
     | none => "err bad-op"
